@@ -87,60 +87,58 @@ theorem tie_drain_drop_loop (d : Drain) (fuel : Nat) (x : CSP × CSP × Nat) (s 
   exact whileFuel_congr _ _ _ LoopOK (fun x s hI _ => tie_drain_drop_step d x s hI)
     (fun x s x' s' hI _ hg => backfillStep_pres x s x' s' hI hg) fuel x s hI
 
-maybe /-- `Drop for Drain`: the two guards, then — on the state they leave, whose buffer they did not touch — the
-circular pointers (well formed because the range lies inside the capacity) and the loop (`tie_drain_drop_loop`) -/
-theorem tie_drain_drop (d : Drain) (s : Sys) (h : Inv s.buf) (hrs : d.rs ≤ s.buf.cap) (hre : d.re ≤ s.buf.cap) :
+/-- discharger of the side conditions met while evaluating the set-up of the loop -/
+macro "drainSide" : tactic => `(tactic| first
+  | omega
+  | (dsimp only; omega)
+  | (dsimp only; exact phys_lt _ _ _ (by omega))
+  | (unfold LoopOK; refine ⟨?_, ?_, ?_, ?_⟩ <;> dsimp only <;> first | omega | (exact phys_lt _ _ _ (by omega))))
+
+maybe /-- `Drop for Drain`.  Zero capacity: nothing is dropped and nothing moves on either side.  Otherwise: the
+two guards (the same prefix on both sides), then — on the state they leave, whose buffer they did not touch
+(`tryFinally_buf`) — the set-up of the circular pointers and of the counters is *evaluated* on both sides
+(everything is in range because the drained range lies inside the buffer), the loop is replaced by the
+model's (`tie_drain_drop_loop`), and the two results are compared.  The order of the set-up statements,
+where the capacity test sits and when the restored size is computed therefore do not matter. -/
+theorem tie_drain_drop (d : Drain) (s : Sys) (h : Inv s.buf) (hrs : d.rs ≤ s.buf.cap) (hre : d.re ≤ s.buf.cap)
+    (hbs : d.re ≤ d.bufSize) :
     Gen.Drain_drop d s = Drain.drop d s := by
   first
   | rfl
   | (
      have hW := h.cap_lt
      have hst := h.start_lt
-     simp only [Gen.Drain_drop, Drain.drop, bind_run, tie_drain_as_mut_slices d s h]
-     have hs0 := Drain.asSlices_state d s
-     cases hsl : Drain.asSlices d s with
-     | mk r s0 =>
-       rw [hsl] at hs0
-       simp only at hs0
-       subst hs0
-       cases r with
-       | error p => rfl
-       | ok rl =>
-         obtain ⟨right, left⟩ := rl
-         simp only []
-         have hb := tryFinally_buf _ _ (dropInPlace_buf right.slots) (dropInPlace_buf left.slots) s0
-         cases htf : tryFinally (dropInPlace right.slots) (dropInPlace left.slots) s0 with
-         | mk r1 s1 =>
-           rw [htf] at hb
-           simp only at hb
-           cases r1 with
-           | error p => rfl
-           | ok u =>
-             simp only [getBuf_bind, getBuf_run, ite_run, bind_assoc_run, liftE_bind, hb]
-             by_cases hc : s0.buf.cap = 0
-             · simp only [hc, if_true, ite_true]
-             · simp only [hc, if_false, ite_false]
-               have hcpos : 0 < s0.buf.cap := by omega
-               have hstlt : s0.buf.start < s0.buf.cap := by omega
-               cases hu : usub d.bufSize d.re with
-               | error p => rfl
-               | ok a =>
-                 simp only [bind_run]
-                 have e1 := CSP.add_run ⟨s0.buf.cap, 0⟩ s0.buf.start s1 (by dsimp only; omega) (by dsimp only; omega) (by dsimp only; omega)
-                 simp only [e1]
-                 have hp := phys_lt 0 s0.buf.cap s0.buf.start hcpos
-                 have e2 := CSP.add_run ⟨s0.buf.cap, phys 0 s0.buf.cap s0.buf.start⟩ d.rs s1 (by dsimp only; omega) (by dsimp only; omega) (by dsimp only; omega)
-                 have e3 := CSP.add_run ⟨s0.buf.cap, phys 0 s0.buf.cap s0.buf.start⟩ d.re s1 (by dsimp only; omega) (by dsimp only; omega) (by dsimp only; omega)
-                 simp only [e2, e3]
-                 rw [tie_drain_drop_loop d (a + 1) _ s1 ⟨phys_lt _ _ _ hcpos, hW, phys_lt _ _ _ hcpos, hW⟩]
-                 simp only []
-                 generalize backfillLoop (a + 1) _ _ a s1 = z
-                 obtain ⟨r2, s2⟩ := z
-                 cases r2 with
-                 | error p => rfl
-                 | ok u2 =>
-                   simp only [liftE_run, setSize, getBuf_bind, setBuf_run, pure_run, bind_run]
-                   cases usub d.bufSize (d.re - d.rs) <;> rfl)
+     by_cases hc : s.buf.cap = 0
+     · -- zero capacity: nothing is dropped, nothing moves
+       simp only [Gen.Drain_drop, Drain.drop, Gen.Drain_as_mut_slices, Drain.asSlices, bind_run, getBuf_bind, getBuf_run, ite_run, hc,
+         true_or, if_true, ite_true, pure_run, View.slots, View.empty, range'_zero_len, dropInPlace_nil, tryFinally, bind_assoc_run, pure_bind_run]
+       all_goals (first | rfl | (simp; done))
+     · have hcpos : 0 < s.buf.cap := by omega
+       have hstlt : s.buf.start < s.buf.cap := by omega
+       simp only [Gen.Drain_drop, Drain.drop, bind_run, getBuf_bind, getBuf_run, ite_run, hc, if_false, ite_false,
+         bind_assoc_run, tie_drain_as_mut_slices d s h]
+       have hs0 := Drain.asSlices_state d s
+       cases hsl : Drain.asSlices d s with
+       | mk r s0 =>
+         rw [hsl] at hs0
+         simp only at hs0
+         subst hs0
+         cases r with
+         | error p => rfl
+         | ok rl =>
+           obtain ⟨right, left⟩ := rl
+           simp only []
+           have hb := tryFinally_buf _ _ (dropInPlace_buf right.slots) (dropInPlace_buf left.slots) s0
+           cases htf : tryFinally (dropInPlace right.slots) (dropInPlace left.slots) s0 with
+           | mk r1 s1 =>
+             rw [htf] at hb
+             simp only at hb
+             cases r1 with
+             | error p => rfl
+             | ok u =>
+               simp (disch := drainSide) only [getBuf_bind, getBuf_run, ite_run, bind_assoc_run, liftE_bind, liftE_run, hb, hc,
+                 if_false, ite_false, bind_run, usub_ok', CSP.add_run, tie_drain_drop_loop, setSize, setBuf_run, pure_run, pure_bind_run]
+               all_goals (first | rfl | (generalize backfillLoop _ _ _ _ s1 = z; obtain ⟨r2, s2⟩ := z; cases r2 <;> rfl)))
 
 maybe theorem tie_drain_len (d : Drain) (s : Sys) : Gen.Drain_len d s = (.ok d.len, s) := by
   first | rfl | tie [Gen.Drain_len, Drain.len]
